@@ -1,7 +1,7 @@
 (* C02/Properties.v — property theorems only.  Each is closed by [exact lemma] and followed by
    [Print Assumptions]. *)
 From RM Require Import C08.Model.
-From RM Require Import C02.Model C02.Documented C02.Proofs1 C02.Proofs2 C02.Proofs3 C02.Proofs4 C02.Proofs5 C02.Proofs6.
+From RM Require Import C02.Model C02.Documented C02.Proofs1 C02.Proofs2 C02.Proofs3 C02.Proofs4 C02.Proofs5 C02.Proofs6 C02.Proofs7.
 Open Scope Z_scope.
 
 (* The layouts regenerated from minidump-common/src/format.rs on this run are the documented ones:
@@ -368,4 +368,61 @@ Example c02_nonvacuous_memory :
   let rs := [ {| mr_base := 18446744073709551600; mr_bytes := repeat 170 15 |}; {| mr_base := 0; mr_bytes := [9; 8] |} ] in
   region_range (nth 0 rs {| mr_base := 0; mr_bytes := [] |}) = Some (18446744073709551600, 18446744073709551614) /\
   memory_byte rs 18446744073709551614 = Some 170 /\ memory_byte rs 1 = Some 8 /\ memory_byte rs 2 = None.
+Proof. vm_compute. repeat split. Qed.
+
+
+(* ------------------------------------------------------------------ round 4: the directory as a whole *)
+(* the set of stream-type numbers that have a name (what MINIDUMP_STREAM_TYPE::from_u32 accepts), regenerated from
+   format.rs on this run, is the documented one *)
+Theorem c02_stream_types_documented : ST_ALL_NAMED = D_ST_ALL_NAMED /\ ST_LastReservedStream = DOC_ST_LastReservedStream.
+Proof. exact stream_types_documented. Qed.
+Print Assumptions c02_stream_types_documented.
+
+(* THE LAST ENTRY OF A TYPE IS SERVED, for EVERY stream-type number (named, named-but-unsupported, vendor, unknown):
+   in any directory, for any file contents, the map Minidump::read builds holds for that type the index and the location
+   of the last entry of the type, all_streams() lists exactly that entry, and get_raw_stream(type) is
+   location_slice of that location (an error when it does not lie within the file) *)
+Theorem c02_last_entry_served : forall all l1 ty loc l3, ~ In ty (map fst l3) ->
+  dmap_get (served_dir (l1 ++ (ty, loc) :: l3)) ty = Some (zlen l1, loc) /\
+  In (ty, (zlen l1, loc)) (served_dir (l1 ++ (ty, loc) :: l3)) /\
+  raw_stream all (l1 ++ (ty, loc) :: l3) ty =
+    match slice all (snd loc) (fst loc) with Some b => SOk b | None => SErr end.
+Proof. exact last_entry_served. Qed.
+Print Assumptions c02_last_entry_served.
+
+(* all_streams(): one entry per type that occurs, in ascending order of the type, each the last of its type;
+   a type that does not occur is StreamNotFound *)
+Theorem c02_served_directory_is_a_map : forall all d,
+  asc (served_dir d) /\
+  (forall ty, In ty (map fst (served_dir d)) <-> In ty (map fst d)) /\
+  (forall ty v, In (ty, v) (served_dir d) <-> last_entry 0 d ty = Some v) /\
+  (forall ty, ~ In ty (map fst d) -> raw_stream all d ty = SMissing).
+Proof. exact served_dir_map. Qed.
+Print Assumptions c02_served_directory_is_a_map.
+
+(* unknown_streams(): exactly the served entries whose type has no name *)
+Theorem c02_unknown_streams : forall d ty v,
+  In (ty, v) (unknown_streams d) <-> last_entry 0 d ty = Some v /\ is_named ty = false.
+Proof. exact unknown_streams_spec. Qed.
+Print Assumptions c02_unknown_streams.
+
+(* the typed readers (get_stream) look the type up in the same map *)
+Theorem c02_typed_and_raw_agree : forall d ty, option_map snd (dmap_get (served_dir d) ty) = dir_lookup d ty.
+Proof. exact served_lookup. Qed.
+Print Assumptions c02_typed_and_raw_agree.
+
+(* the directory of a serialized model — leading duplicates of any type included — reads back entry by entry *)
+Theorem c02_directory_roundtrip : forall e m, wf_model e m = true ->
+  read_directory (encode_dump e m) = Some (e, dir_of e m).
+Proof. exact directory_roundtrip. Qed.
+Print Assumptions c02_directory_roundtrip.
+
+(* non-vacuity: three entries of the vendor type 0x4d7a0b0b interleaved with two of CommentStreamA and one of 0xffffffff *)
+Example c02_nonvacuous_directory :
+  let d := [(1299843851, (3, 40)); (10, (1, 50)); (1299843851, (5, 60)); (10, (2, 70)); (1299843851, (7, 80)); (4294967295, (0, 0))] in
+  served_dir d = [(10, (3, (2, 70))); (1299843851, (4, (7, 80))); (4294967295, (5, (0, 0)))] /\
+  unknown_streams d = [(1299843851, (4, (7, 80))); (4294967295, (5, (0, 0)))] /\
+  raw_stream (repeat 7 86 ++ [1; 2]) d 1299843851 = SOk [7; 7; 7; 7; 7; 7; 1] /\
+  raw_stream (repeat 7 86) d 1299843851 = SErr /\ raw_stream [] d 11 = SMissing /\
+  stream_vendor 1299843851 = 2 /\ stream_vendor 4294967295 = 3 /\ stream_vendor 10 = 0 /\ is_named 10 = true.
 Proof. vm_compute. repeat split. Qed.
